@@ -9,6 +9,9 @@ REQ = [f for f in OPT if any(c in ' \t\n\r\f' for c in _re.sub(r'/\*.*?\*/', '',
 HEXSAFE = 'ghijklmnopqrstuvwxyzGHIJKLMNOPQRSTUVWXYZ_'
 
 
+HEXSAFE_NOT = '0123456789abcdefABCDEF'
+
+
 class Speller:
     def __init__(self, seed, level=1.0):
         self.r = random.Random(seed)
@@ -24,6 +27,15 @@ class Speller:
         out = ''
         for i, ch in enumerate(s):
             k = self.r.random()
+            if not (ch.isalnum() or ch in '_-' or ord(ch) >= 0x80):
+                # a character that is only an identifier character when escaped: one of the three escape forms, always
+                if ch in '\n\r\f' or ch in HEXSAFE_NOT or k < 0.5:
+                    out += '\\%x' % ord(ch) + (self.r.choice([' ', '\t', '\n', '\r\n', '\f']) if self.level else ' ')
+                elif k < 0.75:
+                    out += '\\%06x' % ord(ch) + self.r.choice(['', ' ', '\n'])
+                else:
+                    out += '\\' + ch
+                continue
             if k < 0.25 * self.level:
                 out += '\\%x' % ord(ch) + self.r.choice([' ', ' ', '\t', '\n', '\r\n', '\f'])
             elif k < 0.35 * self.level:
